@@ -7,23 +7,7 @@ COMMON_NOTE = ('Trusted: Coq 8.16.1 kernel/coqc/vm_compute (no native_compute), 
                '(generators, canonicalisation, subprocess runner), and for hand-written models the differential '
                'correspondence as the only tie to the code. ')
 
-CLAIMS = {
- 'C09': dict(
-  text='Machine-checked proof (Coq): an executable model of TaskQueue (sc3/base/_taskq.py, heapq by specification) is proved, by induction over ALL operation histories and for every arrangement of the heap list, to satisfy its representation invariant and to refine a sorted-list priority queue; the property clauses (non-decreasing pops, FIFO on ties, at most once, re-add as latest, remove frames others, emptiness/earliest/latest agree with contents) are corollaries. The model is tied to the code on every run by differential correspondence on generated histories (tie-heavy priorities, tombstones) against the real class; a reference sorted-list queue searches for a failing history when anything breaks.',
-  technique='Coq proof: invariant + refinement to sorted-list spec over all histories; model/implementation correspondence by vm_compute',
-  note='CPython heapq/min/max/sorted/itertools.count/dict modelled by specification; NaN/inf priorities and threads not modelled.',
-  ref='DESIGN.md section 5 C09, notes/C09.md'),
- 'C12': dict(
-  text='Machine-checked proof (Coq) about definitions REGENERATED from sc3/base/clock.py on every run by a fail-closed Python-ast to Gallina translator (29 TempoClock methods over int | ideal-float numbers): inverse beat/second conversions, invariants preserved by every setter over all histories, continuity of tempo/beats/etempo changes, grid congruence/not-before/minimality of next_time_on_grid, bar/beat inverses, next_bar laws, meter re-basing. The regenerated model is additionally executed against the real TempoClock in NRT on a dyadic grid (exact comparison), which also validates the translator; law probes on the implementation search for a concrete failing input when a proof breaks.',
-  technique='Coq proof over a model regenerated from source by translator; exact dyadic-grid correspondence with the real TempoClock',
-  note='Floats are modelled as rationals (exact on the dyadic grid used by the correspondence; binary64 rounding off the grid not verified). Translator trusted for the accepted subset; Quant.as_quant and the NRT wake-up are hand-modelled and tied by correspondence only; play_quant_schedules_on_grid is proved as _partial (scheduler step hand-modelled).',
-  ref='DESIGN.md section 5 C12, notes/C12.md'),
- 'C15': dict(
-  text='Machine-checked proof (Coq) about numeric kernels REGENERATED from sc3/base/builtins.py on every run (translator to int | ideal-float numbers, and to Coq reals for the transcendental kernels): wrap/fold/clip/mod range laws, round/roundup/trunc multiples on the correct side for every mix of int and float arguments, and midi/cps, ratio/midi, oct/cps, amp/db mutual inverses over R. The regenerated kernels are executed against the real functions on a dyadic grid (exact). Operator lifting over functions/streams/patterns/lists is proved on a hand-written executable model tied by correspondence on real operand trees.',
-  technique='Coq proof over kernels regenerated from source by translator; exact dyadic-grid correspondence; law probes to find failing inputs',
-  note='Floats as rationals (exact on dyadic grid; binary64 rounding off-grid and libm not verified); R theorems rely on the standard library real-number axioms (sig_forall_dec, sig_not_dec, functional_extensionality_dep, classic).',
-  ref='DESIGN.md section 5 C15, notes/C15.md', hold='check being completed (kernel half built; general int/float theorems and lifting half in progress)'),
-}
+CLAIMS = json.load(open(os.path.join(HERE, 'harness', 'claims.json')))   # per property: text, technique, note, ref, optional hold
 
 REASON_PENDING = 'check not built yet (work in progress; see DESIGN.md section 10 for the build order)'
 
